@@ -10,7 +10,7 @@ import sympy as sp
 from ptstat import AnalysisError, relang, peg
 from ptstat.symval import SymObj, Phi, SymRaise
 from spec import grammar_gen as G
-from .common import fsite, raises, folder, _s
+from .common import fsite, raises, folder, _s, public_entry_points
 from .C01 import build, ident
 
 EXPLANATION = (
@@ -70,6 +70,7 @@ def run(ctx):
         for cnt, cl in ((sp.Integer(1), "count 1"), (sp.Integer(3), "count 3"), (sp.Rational(5, 2), "count 2.5")):
             f = I.call(fm, [[(cnt, atom), (sp.Integer(2), E("Cl"))]], {})
             roundtrip("R1", f"{label}, {cl}: printed tag sequence parses back to the same atom", f)
+    public_entry_points(ctx, "RW", [("formula", "formulas.formula")])
     ctx.floor("R1", 36)
 
     # ---- R2 count formatting ----------------------------------------------------------------------------
